@@ -4,7 +4,7 @@ C17 — executable model of `reamber/algorithms/generate/full_ln.py`, *as writte
 it goes through:
 
     m = m.deepcopy()
-    df = m.stack((HitList, HoldList))._stacked                 -- `stacked`   (every HitList/HoldList-typed list of the map!)
+    df = m.stack((type(m.hits), type(m.holds)))._stacked       -- `stacked`   (the chart's own hits and holds lists)
     dfgs = df.loc[:, ["offset","column","length"]]
              .sort_values(["offset"]).groupby("column")        -- `sortByOffset` (any sorting permutation), `groups`
     for _, dfg in dfgs:
@@ -21,7 +21,7 @@ import Reamber.Model.Timing
 
 namespace Reamber.FullLN
 
-open Reamber.Timing (isort insertBy Err)
+open Reamber.Timing (isort insertBy)
 
 /-- one row of `df.loc[:, ["offset", "column", "length"]]` -/
 structure Row where
@@ -34,20 +34,21 @@ deriving DecidableEq, Repr, Inhabited
 def asHit (r : Row) : Row := { r with length := none }
 
 /-- A chart, as far as `full_ln` looks at it.
-`extras`: the rows of every *further* list of the map that is an instance of `HitList` or `HoldList`
-(StepMania: fakes, lifts, keysounds, mines — NaN length — and rolls), in `objs` order; they precede `hits`
-and `holds` in `SMMap.objs`.  `others`: everything else the map carries (tempo list, SVs, stops, metadata). -/
+`extras`: the rows of every *further* note list of the map (StepMania: fakes, lifts, keysounds, mines — NaN
+length — and rolls).  Since the repair of D23 they are not stacked: `m.stack((type(m.hits), type(m.holds)))`
+picks up exactly the chart's own hit and hold lists (the list classes of a map are pairwise unrelated
+subclasses).  `others`: everything else the map carries (tempo list, SVs, stops, metadata). -/
 structure MapM (α : Type) where
   extras : List Row
   hits : List Row
   holds : List Row
   others : α
 
-/-- `pd.concat([v.df for v in objs if isinstance(v, (HitList, HoldList))])` restricted to the three columns -/
-def stacked {α} (m : MapM α) : List Row := m.extras ++ (m.hits.map asHit ++ m.holds)
+/-- `pd.concat([v.df for v in objs if isinstance(v, (type(m.hits), type(m.holds)))])`, three columns -/
+def stacked {α} (m : MapM α) : List Row := m.hits.map asHit ++ m.holds
 
-/-- every note of the chart (the same rows: the defect is exactly that `extras` are stacked too) -/
-def notes {α} (m : MapM α) : List Row := m.extras ++ (m.hits.map asHit ++ m.holds)
+/-- every note of the chart, the further note lists included -/
+def notes {α} (m : MapM α) : List Row := m.extras ++ stacked m
 
 /-- `sort_values(["offset"])`; the model is the stable one, theorems quantify over any sorting function -/
 def sortByOffset (l : List Row) : List Row := isort (fun a b => decide (a.offset ≤ b.offset)) l
@@ -98,24 +99,17 @@ def fullLnRows (gap thr : Rat) (sorted : List Row) : List Row :=
 
 def isHit (r : Row) : Bool := r.length.isNone
 
-/-- `TimedList.from_dict(d)`: `if not d: return cls([])`; otherwise every undeclared column gets
-`df[col] = default`, which raises `ValueError` when the default is a list (Quaver `keysounds=[]`). -/
-def fromDict (scalarDefaults : Bool) (rows : List Row) : Except Err (List Row) :=
-  if rows.isEmpty then .ok [] else if scalarDefaults then .ok rows else .error .value
+/-- `TimedList.from_dict(d)`: `if not d: return cls([])`; otherwise the frame of the dicts, every undeclared
+column filled with its default (since the repair of D24 a list default is one fresh list per row) — for the
+three columns modelled here: the rows themselves. -/
+def fromDict (rows : List Row) : List Row := if rows.isEmpty then [] else rows
 
 /-- `full_ln` with the sorting step as a parameter (numpy's quicksort is not stable) -/
-def fullLnWith {α} (sortF : List Row → List Row) (scalarDefaults : Bool) (gap thr : Rat) (m : MapM α) :
-    Except Err (MapM α) :=
+def fullLnWith {α} (sortF : List Row → List Row) (gap thr : Rat) (m : MapM α) : MapM α :=
   let rows := fullLnRows gap thr (sortF (stacked m))
-  match fromDict scalarDefaults (rows.filter isHit) with
-  | .error e => .error e
-  | .ok hits =>
-    match fromDict scalarDefaults (rows.filter (fun r => !isHit r)) with
-    | .error e => .error e
-    | .ok holds => .ok { m with hits := hits, holds := holds }
+  { m with hits := fromDict (rows.filter isHit), holds := fromDict (rows.filter (fun r => !isHit r)) }
 
-def fullLn {α} (scalarDefaults : Bool) (gap thr : Rat) (m : MapM α) : Except Err (MapM α) :=
-  fullLnWith sortByOffset scalarDefaults gap thr m
+def fullLn {α} (gap thr : Rat) (m : MapM α) : MapM α := fullLnWith sortByOffset gap thr m
 
 /-! ### what the model knows about the games (tied to the source by `Generated/FullLN.lean`) -/
 
@@ -123,21 +117,15 @@ def fullLn {α} (scalarDefaults : Bool) (gap thr : Rat) (m : MapM α) : Except E
 def defaultGap : Rat := 150
 def defaultThres : Rat := 100
 
-/-- per map class: names of the `objs` lists that are `HitList`/`HoldList` instances besides `hits`/`holds`
-(with `true` = has a `length` column), and whether every declared default of the hit and hold classes is a
-scalar -/
+/-- per map class: the `objs` lists that the stack call of `full_ln` picks up, and whether `from_dict` of the
+hit and hold classes builds a list from bare offset/column(/length) dicts -/
 structure GameInfo where
   name : String
-  extraLists : List (String × Bool)
-  scalarDefaults : Bool
+  stackedLists : List String
+  fromDictFills : Bool
 deriving DecidableEq, Repr
 
-def games : List GameInfo := [
-  ⟨"base", [], true⟩,
-  ⟨"osu", [], true⟩,
-  ⟨"qua", [], false⟩,
-  ⟨"bms", [], true⟩,
-  ⟨"o2j", [], true⟩,
-  ⟨"sm", [("fakes", false), ("lifts", false), ("keysounds", false), ("mines", false), ("rolls", true)], true⟩]
+def games : List GameInfo :=
+  ["base", "osu", "qua", "bms", "o2j", "sm"].map (fun g => ⟨g, ["hits", "holds"], true⟩)
 
 end Reamber.FullLN
